@@ -1,5 +1,6 @@
 """C03 Generated product kernels and operators compute exactly the published tables."""
 import itertools
+from fractions import Fraction
 import operator as pyop
 
 from harness import core, gen, common
@@ -145,6 +146,28 @@ def check_kernels(res, L, rng, tag, tier, jit):
             if not same(out, exp) or KINDS[out.dtype.kind] != max(KINDS[np.dtype(da).kind], KINDS[np.dtype(db).kind]):
                 res.violate('mixed-dtype kernel result is wrong or of a narrower kind', dict(site, table=which, da=da, db=db),
                             [np.asarray(out).tolist(), str(out.dtype)], [str(x) for x in exp], dict(site, op=which + '_func-mixed'))
+    # the kernel generator is public and works for ANY sparse table: a table with non-integer entries (half the geometric table, and a
+    # table with float / fractional weights per entry) must be contracted as given
+    if N <= 32:
+        import sparse
+        import clifford as cf
+        g = L.gmt
+        for nm_, data_ in (('half', g.data.astype(np.float64) * 0.5), ('weighted', g.data.astype(np.float64) * (1.0 + (np.arange(len(g.data)) % 4) * 0.25))):
+            mt = sparse.COO(coords=g.coords, data=data_, shape=g.shape, prune=True)
+            dense_ = np.asarray(mt.todense())
+            Tm = np.empty(dense_.shape, dtype=object)
+            for idx_ in np.ndindex(*dense_.shape):
+                Tm[idx_] = Fraction(float(dense_[idx_]))
+            fm = cf.get_mult_function(mt, L._basis_blade_order.grades)
+            a, ea = operand(rng, N, 'float64', 'dense')
+            b, eb = operand(rng, N, 'float64', 'half')
+            out = fm(a, b)
+            exp = contraction(Tm, to_obj(ea, 'f'), to_obj(eb, 'f'))
+            res.case(('kernel-float-table', tag, nm_, str(ea), str(eb)), nontrivial=any(ea) and any(eb))
+            res.count('float_table')
+            if not same(out, exp):
+                res.violate('get_mult_function on a table with non-integer entries is not the contraction of that table', dict(site, table=nm_,
+                            a=[str(x) for x in ea], b=[str(x) for x in eb]), np.asarray(out).tolist(), [str(x) for x in exp], dict(site, op='float-table:' + nm_))
     # grade-restricted variants
     all_sets = [list(c) for r in range(n + 2) for c in itertools.combinations(range(n + 1), r)]
     pairs = list(itertools.product(all_sets, repeat=2))
@@ -237,8 +260,8 @@ def check_operators(res, L, rng, tag, tier):
             sk = np.result_type(s).kind
             S = MultiVector(L, np.zeros(N, dtype=np.result_type(s)))
             S.value[sidx] = s
-            for sym, f in OPS.items():
-                for side in ('right', 'left'):
+            for sym, f in list(OPS.items()) + [('<<', pyop.lshift), ('lc', lambda x_, y_: x_.lc(y_))]:
+                for side in (('right',) if sym in ('<<', 'lc') else ('right', 'left')):
                     res.case(('scalar', tag, sym, side, dt, repr(s), str(ea)))
                     res.count(f'scalar_{type(s).__name__}')
                     try:
